@@ -56,7 +56,7 @@ B0 == [sent |-> [e \in Ends |-> 0], got |-> [e \in Ends |-> 0],
        wr |-> [e \in Ends |-> "open"], rdClosed |-> [e \in Ends |-> FALSE],
        dirEnded |-> [d \in {"AB", "BA"} |-> FALSE], rcw |-> [e \in Ends |-> FALSE],
        order |-> "", obs |-> FALSE]
-U0 == [t |-> <<>>, u |-> <<>>, cut |-> 0, how |-> "eof", ugot |-> 0, tgot |-> 0, usent |-> 0, ended |-> FALSE, sc |-> "", lossy |-> FALSE]
+U0 == [t |-> <<>>, u |-> <<>>, cut |-> 0, how |-> "eof", ugot |-> 0, tgot |-> 0, usent |-> 0, ended |-> FALSE, sc |-> "", lossy |-> FALSE, sock |-> "fake"]
 
 Init == l = 1 /\ viol = {} /\ mode = "none" /\ b = B0 /\ ud = U0
 
@@ -131,7 +131,7 @@ TrHungB ==
 \* ---- UDP relay ---------------------------------------------------------------------------------
 TrUStart == /\ Is("UStart") /\ Step /\ mode' = "udp"
             /\ ud' = [U0 EXCEPT !.t = Ev.t, !.u = Ev.u, !.cut = Ev.cut, !.how = Ev.how,
-                                 !.sc = IF Has("sc") THEN Ev.sc ELSE "", !.lossy = IF Has("lossy") THEN Ev.lossy ELSE FALSE]
+                                 !.sc = IF Has("sc") THEN Ev.sc ELSE "", !.sock = IF Has("sock") THEN Ev.sock ELSE "fake", !.lossy = IF Has("lossy") THEN Ev.lossy ELSE FALSE]
             /\ Keep(viol) /\ Keep(b)
 
 UKey == "udp:" \o ud.how \o ":cut=" \o CutClass(ud.t, ud.cut)
@@ -174,7 +174,7 @@ TrTunnelEnd == /\ Is("TunnelEnd") /\ Step /\ ud' = [ud EXCEPT !.ended = TRUE]
 
 TrReturnedU ==
   /\ Is("Returned") /\ mode = "udp" /\ Step
-  /\ viol' = viol \cup (IF ud.how = "eof" /\ ud.ugot < Whole(ud.t, ud.cut) THEN {V("Complete", "t2u:" \o UKey)} ELSE {})
+  /\ viol' = viol \cup (IF ud.how = "eof" /\ ud.ugot < Whole(ud.t, ud.cut) THEN {V("Complete", "t2u:" \o UKey \o (IF ud.sock = "vconn" THEN ":virtualConn" ELSE ""))} ELSE {})
                   \cup (IF ~ud.ended THEN {V("EarlyReturn", UKey)} ELSE {})
   /\ Keep(ud) /\ Keep(mode) /\ Keep(b)
 TrHungU ==
